@@ -1212,6 +1212,11 @@ mod statics {
                 if b < len { if let Some((c, o)) = check_range(f, a, b) { h.hit("ranges", &c, "Server::process", &format!("{}|{}-{}", f, a, b), &o); } }
             }
         }
+        // a relative symbolic link below the root (dir/up.txt -> ../a.txt): the bytes are those of the file the link points to,
+        // resolved against the link's own directory
+        for (a, b) in [(0u64, 3u64), (10, 40), (99, 99), (0, 99)] {
+            if let Some((c, o)) = check_range("dir/up.txt", a, b) { h.hit("ranges", &c, "Server::process", &format!("dir/up.txt|{}-{}", a, b), &o); }
+        }
         // history 1 (C03): the file grows / shrinks between two requests
         std::fs::write("hist.bin", vec![b'1'; 100]).unwrap();
         let _ = get("/hist.bin", None, "GET");
